@@ -199,6 +199,15 @@ impl Program {
     pub fn seq_of(th: usize, idx: usize) -> u32 {
         (th as u32 + 1) * 1000 + idx as u32 + 1
     }
+    /// "Age" of a value for the newer-wins validator: values written by the deterministic setup
+    /// (thread 9) are older than anything the clients write.
+    pub fn rank(seq: u32) -> u32 {
+        if seq >= 10_000 {
+            seq - 10_000
+        } else {
+            seq
+        }
+    }
 }
 
 // ------------------------------------------------------------------------------------------------
@@ -274,7 +283,7 @@ impl UpdateValidator for HValidator {
         let r = match self.mode {
             ValidatorMode::Always => true,
             ValidatorMode::Never => false,
-            ValidatorMode::Newer => curr.seq > prev.seq,
+            ValidatorMode::Newer => Program::rank(curr.seq) > Program::rank(prev.seq),
         };
         self.calls.lock().unwrap().push((*prev, *curr, r));
         r
